@@ -15,7 +15,7 @@ pub fn table_commit(
     ensures
         final(transcript).digest@ == ts_absorb1(old(transcript).digest@, unsent_commitment@), // [C01,C02,C08:table-root-absorbed]
         final(transcript).counter@ == 0,
-        r.config == config, r.vector_commitment.config == config.vector, r.vector_commitment.commitment_hash == unsent_commitment, // [C01,C02,C08:table-commitment-keeps-root-and-config]
+        r.config == config, r.vector_commitment.config == config.vector, r.vector_commitment.commitment_hash == unsent_commitment, // [C01,C02,C08,C18:table-commitment-keeps-root-and-config]
 {
     let vector_commitment = vector_commit(transcript, unsent_commitment, config.vector.clone());
     Commitment { config, vector_commitment }
